@@ -67,11 +67,34 @@ func suiteCollection(r *Rng, n int, thorough bool, o *Out) {
 		var rows []specRow
 		cur := typ.Copy() // the oracle's idea of the current type
 		o.emit(lst("col", "reset", sxType(typ)), colDump(sc), "ok")
-		for h := 1 + r.IntN(10); h > 0; h-- {
+		// a scripted beginning in an eighth of the cases: the same ID added twice (or three
+		// times), removed, looked up, removed and looked up again - the collection is the
+		// plain list, whatever it keeps beside it
+		var script []int
+		forcedID := ""
+		if r.chance(1, 8) {
+			script = [][]int{{0, 0, 4, 9, 4, 9}, {0, 0, 0, 4, 9, 8, 4, 9, 4, 9}, {0, 5, 0, 4, 9, 0, 9}}[r.IntN(3)]
+			forcedID = idPool[r.IntN(6)]
+			o.stat("scripted-duplicates")
+		}
+		for h := 1 + r.IntN(10) + len(script); h > 0; h-- {
 			var op, obs, pv string
 			pv = "ok"
 			panicked := false
-			switch k := r.IntN(10); {
+			k := r.IntN(10)
+			if len(script) > 0 {
+				k, script = script[0], script[1:]
+			} else {
+				forcedID = ""
+			}
+			pickID := func() string {
+				id := idPool[r.IntN(6)]
+				if forcedID != "" {
+					id = forcedID
+				}
+				return id
+			}
+			switch {
 			case k < 4: // Add
 				rt := genSmallType("t")
 				if r.chance(1, 3) {
@@ -94,7 +117,7 @@ func suiteCollection(r *Rng, n int, thorough bool, o *Out) {
 					res = newWrapped(rt)
 					o.stat("add.wrapped")
 				}
-				id := idPool[r.IntN(6)]
+				id := pickID()
 				fill(res, id, vals)
 				if r.chance(1, 8) {
 					// an application's own Resource whose Get hands out a pointer to the pointer
@@ -159,7 +182,7 @@ func suiteCollection(r *Rng, n int, thorough bool, o *Out) {
 					res.Set("id", "changed")
 				}
 			case k == 4:
-				id := idPool[r.IntN(6)]
+				id := pickID()
 				op = lst("col", "remove", hx(id))
 				panicked, _ = guard(func() { sc.Remove(id) })
 				for i := range rows {
@@ -247,7 +270,7 @@ func suiteCollection(r *Rng, n int, thorough bool, o *Out) {
 					}
 				}
 			default:
-				id := idPool[r.IntN(6)]
+				id := pickID()
 				op = lst("col", "resource", hx(id))
 				var res jsonapi.Resource
 				panicked, _ = guard(func() { res = sc.Resource(id, nil) })
